@@ -226,7 +226,8 @@ def run(res):
     for p in parts:
         res.merge(p)
     # the unchecked fast path (from_utf8_unchecked) under valgrind; Miri in thorough
-    sample = ["b " + bytes(x).hex() for x in B[:300]] + ["s " + q(x) for x in S[:300]]
+    short = lambda vals: [x for x in vals if len(x) <= 64][:300]   # (the interpreters need seconds per kilobyte)
+    sample = ["b " + bytes(x).hex() for x in short(B)] + ["s " + q(x) for x in short(S)]
     sanitize.batch_under_tools(res, bins, "repr", [], ("\n".join(sample) + "\n").encode(), tools=("valgrind", "miri") if res.tier == "thorough" else ("valgrind",), what="repr batch of 600")
     res.exhaustive = res.tier == "thorough"
     res.cover["byte_strings"] = len(B)
